@@ -3,6 +3,9 @@ import gfapy
 class SameID:
 
   def _process_not_unique(self, previous):
+    if previous.__class__ is not self.__class__:
+      return super()._process_not_unique(previous)
+    self._check_tags_of_previous_group_definition(previous)
     self._gfa = previous.gfa
     self._initialize_references()
     cur_items = self.get("items")
@@ -12,7 +15,7 @@ class SameID:
     self._import_tags_of_previous_group_definition(previous)
     return None
 
-  def _import_tags_of_previous_group_definition(self, previous):
+  def _check_tags_of_previous_group_definition(self, previous):
     for tag in previous.tagnames:
       prv = previous.get(tag)
       cur = self.get(tag)
@@ -24,5 +27,8 @@ class SameID:
             "Previous tag definition: {}\n".format(prv)+
             "New tag definition: {}\n".format(cur)+
             "Group ID: {}".format(self.name))
-      else:
-        self.set(tag, prv)
+
+  def _import_tags_of_previous_group_definition(self, previous):
+    for tag in previous.tagnames:
+      if not self.get(tag):
+        self.set(tag, previous.get(tag))
